@@ -3,6 +3,7 @@ import PyImpSpec.Cdc.Model
 import PyImpSpec.DataSet.Model
 import PyImpSpec.Param.Model
 import PyImpSpec.Impedance.CQ
+import PyImpSpec.Gen.Kernels
 
 /-! Line-protocol driver: one request per line (`<model> <op> <args…>`), one canonical reply per line.
 Run with `lake env lean --run Driver/Main.lean`.  The harness sends the same inputs to the real
@@ -84,6 +85,30 @@ def impReply (n : Nat) (toks : List String) : String :=
     | some v => "ok " ++ " ".intercalate (v.map Imp.CQ.show)
     | none => "err InfiniteImpedance"
   | _ => "bad-op"
+
+
+/-! ### translated kernels at complex floats (translator cross-check) -/
+
+/-- `s:m:e` ↦ ±m·10^e -/
+def parseFloat (s : String) : Float :=
+  match s.splitOn ":" with
+  | [sg, m, e] =>
+    let ex := e.toInt!
+    let v := Float.ofScientific m.toNat! (ex < 0) ex.natAbs
+    if sg = "-" then -v else v
+  | _ => 0.0
+
+def kerReply (which sym : String) (binds : List String) : String :=
+  let tbl := if which = "impl" then Gen.K.impls else Gen.K.eqns
+  match tbl.find? (·.1 = sym) with
+  | none => "err no-kernel"
+  | some (_, e) =>
+    let env : List (String × Float) := binds.filterMap fun b =>
+      match b.splitOn "=" with
+      | [k, v] => some (k, parseFloat v)
+      | _ => none
+    let z := e.evalF fun k => match env.find? (·.1 = k) with | some (_, v) => ⟨v, 0⟩ | none => ⟨0, 0⟩
+    s!"ok {z.re.toBits} {z.im.toBits}"
 
 /-! ### DataSet -/
 
@@ -220,6 +245,7 @@ def step (st : DState) (line : String) : DState × String :=
   | ["cdc", fl] => (st, cdcReply fl "")
   | "ds" :: args => dsStep st args
   | "pa" :: args => paStep st args
+  | "ker" :: which :: sym :: binds => (st, kerReply which sym binds)
   | "imp" :: n :: toks => (st, impReply n.toNat! toks)
   | _ => (st, "bad-op")
 
